@@ -591,10 +591,23 @@ def antichain_numerics(prog: Program, rep, RID: str):
     reads = [c for c in calls_in(f.node) if isinstance(c.func, ast.Attribute) and c.func.attr == "get" and norm(c.func.value) == "weight_function"]
     if not reads:
         raise AnalysisError("compute_max_edge_antichain: the read of the weight function was not found")
-    exact = [c for c in calls_in(f.node) if dotted(c.func) in ("Fraction", "fractions.Fraction", "Decimal", "decimal.Decimal") and c.args and
-             any(isinstance(n, ast.Name) and n.id == "edge_demand" or n in reads for n in ast.walk(c.args[0]))]
-    ints = [c for c in calls_in(f.node) if dotted(c.func) in ("int", "round") and c.args and any(isinstance(n, ast.Name) and n.id == "edge_demand" or n in reads for n in ast.walk(c.args[0]))]
-    unguarded_int = [c for c in ints if not any(isinstance(i, ast.If) and any(c is x for x in ast.walk(i)) and ("Integral" in norm(i.test) or "is_integer" in norm(i.test))
+    # names that carry the weight: the local it is read into, and the parameters of nested helpers that are called with it
+    carriers = {"edge_demand"}
+    for st in ast.walk(f.node):
+        if isinstance(st, ast.Assign) and len(st.targets) == 1 and isinstance(st.targets[0], ast.Name) and any(n in reads for n in ast.walk(st.value)):
+            carriers.add(st.targets[0].id)
+    nested = {fd.name: fd for fd in ast.walk(f.node) if isinstance(fd, ast.FunctionDef) and fd is not f.node}
+    for c in calls_in(f.node):
+        if isinstance(c.func, ast.Name) and c.func.id in nested:
+            for a, prm in zip(c.args, nested[c.func.id].args.args):
+                if any(n in reads or (isinstance(n, ast.Name) and n.id in carriers) for n in ast.walk(a)):
+                    carriers.add(prm.arg)
+
+    def carries(e):
+        return any((isinstance(n, ast.Name) and n.id in carriers) or n in reads for n in ast.walk(e))
+    exact = [c for c in calls_in(f.node) if dotted(c.func) in ("Fraction", "fractions.Fraction", "Decimal", "decimal.Decimal") and c.args and carries(c.args[0])]
+    ints = [c for c in calls_in(f.node) if dotted(c.func) in ("int", "round") and c.args and carries(c.args[0])]
+    unguarded_int = [c for c in ints if not any(isinstance(i, (ast.If, ast.IfExp)) and any(c is x for x in ast.walk(i)) and ("Integral" in norm(i.test) or "is_integer" in norm(i.test))
                                                for i in ast.walk(f.node))]
     if unguarded_int:
         rep.violation(RID, key, f"`{norm(unguarded_int[0])}` truncates non-integral weights before the antichain is computed", f.loc(unguarded_int[0]))
